@@ -18,6 +18,7 @@ import (
 	"github.com/bluenviron/gortsplib/v5/pkg/sdp"
 
 	"github.com/bluenviron/gortsplib/v5"
+	"github.com/bluenviron/gortsplib/v5/pkg/base"
 	"github.com/bluenviron/gortsplib/v5/pkg/description"
 
 	"verif/internal/sysx"
@@ -35,6 +36,8 @@ type Flow struct {
 	Quick       bool   // part of the quick tier
 	Base        string // flow whose conversation is a prefix of this one
 	CredPairs   bool   // pairs of deviations are also enumerated with credentials in the URL
+	Options404  bool   // the server answers every OPTIONS with 404 (tolerated by the client, which then repeats OPTIONS before every request)
+	Hostile     bool   // the flow's own server flavour is a misbehaviour: its undeviated conversation need not succeed (API calls may return errors), the rest of the oracle applies
 	NoDescribe  bool   // the application already has the description (from an earlier client, a cache): no DESCRIBE, Setup per media
 	Handshake   bool   // pseudo-flow: tunnel handshake against a misbehaving peer (tunnelhs.go), not part of the control / deviation machinery
 }
@@ -48,6 +51,7 @@ var flows = []*Flow{
 	{CredPairs: true, Name: "play-auto-switch", Mode: "play", Proto: "auto", Blackhole: true, Pause: true, Quick: true, Base: "play-auto"},
 	{Name: "play-auto-switch-nodescribe", Mode: "play", Proto: "auto", Blackhole: true, NoDescribe: true, Quick: true},
 	{Name: "play-tcp-nodescribe", Mode: "play", Proto: "tcp", NoDescribe: true, Pause: true, Quick: true},
+	{Name: "play-auto-options-404", Mode: "play", Proto: "auto", Options404: true, Hostile: true, Pause: true, Quick: true},
 	{Name: "pause-tcp", Mode: "play", Proto: "tcp", Pause: true, Quick: true, Base: "play-tcp"},
 	{Name: "pause-udp", Mode: "play", Proto: "udp", Pause: true, Quick: false, Base: "play-udp"},
 	{CredPairs: true, Name: "record-tcp", Mode: "record", Proto: "tcp", Pause: true, Quick: true},
@@ -365,6 +369,14 @@ func clientSockets(env *sysx.Env) []string {
 
 func recordDesc() *description.Session { return sysx.DefaultDesc(2) }
 
+// resultOrError: "every client API call returns a result or an error".
+func (x *execCtx) resultOrError(step string, r *base.Response, err error) error {
+	if r == nil && err == nil {
+		x.res.Viol = append(x.res.Viol, Viol{"api-call-returns-neither-result-nor-error", step, "the call returned (nil, nil)"})
+	}
+	return err
+}
+
 // runCase executes one case in a fresh world. mark is called with the name of each step before it starts.
 func runCase(cs Case, mark func(step string)) *ExecResult {
 	res := &ExecResult{Case: cs}
@@ -460,7 +472,7 @@ func runCase(cs Case, mark func(step string)) *ExecResult {
 			})
 			step("setup", func() error { return c.SetupAll(desc.BaseURL, desc.Medias) })
 		}
-		if step("play", func() error { _, err := c.Play(nil); return err }) {
+		if step("play", func() error { r, err := c.Play(nil); return x.resultOrError("play", r, err) }) {
 			// the media the server sends right after its PLAY answer is processed by the client's reader
 			// before the flow goes on (no virtual time passes)
 			x.idle("media", 0)
@@ -479,7 +491,7 @@ func runCase(cs Case, mark func(step string)) *ExecResult {
 			}
 		}
 		if flow.Pause {
-			step("pause", func() error { _, err := c.Pause(); return err })
+			step("pause", func() error { r, err := c.Pause(); return x.resultOrError("pause", r, err) })
 		}
 	case "record":
 		rd := recordDesc()
